@@ -100,9 +100,14 @@ class Ctx:
 
     # ------------------------------------------------------------------
     def finish(self):
-        self.check_floors()
+        from .model import AnalysisError
+        floor_error = None
+        try:
+            self.check_floors()
+        except AnalysisError as e:
+            floor_error = e
         known = Known()
-        out_dir = os.path.join(VERIF, "evidence")
+        out_dir = os.environ.get("YARL_VERIF_OUT") or os.path.join(VERIF, "evidence")
         vdir = os.path.join(out_dir, "violations")
         os.makedirs(vdir, exist_ok=True)
         for fn in os.listdir(vdir):
@@ -125,7 +130,7 @@ class Ctx:
             print(f"KNOWN-FINDING: property={self.prop} rule={f.rule} {f.key} :: {what}")
         for i, f in enumerate(violations, 1):
             rp = os.path.join("evidence", "violations", f"{self.prop}-{i}.json")
-            with open(os.path.join(VERIF, rp), "w") as fh:
+            with open(os.path.join(vdir, f"{self.prop}-{i}.json"), "w") as fh:
                 json.dump({"property": self.prop, "rule": f.rule, "function": f.func, "construct": f.construct,
                            "key": f.key, "where": f.where, "message": f.message, "detail": _jsonable(f.detail)}, fh, indent=1)
             print(f"{f.where or f.func}: [{f.rule}] {f.message}\n    construct: {f.construct}")
@@ -162,7 +167,11 @@ class Ctx:
         print(f"{self.prop}: {obligations} obligations, {discharged} discharged, {len(known_hits)} known finding(s), "
               f"{len(violations)} violation(s); rules: " +
               ", ".join(f"{k}={v['discharged']}/{v['obligations']}" for k, v in sorted(self.rules.items())))
-        return 1 if violations else 0
+        if violations:
+            return 1
+        if floor_error is not None:
+            raise floor_error       # nothing reported, but a rule lost sight of its code: exit 2, never a silent pass
+        return 0
 
 
 def _jsonable(x):
